@@ -604,7 +604,7 @@ theorem writeLexicon_ok (es : List Entry) (h : ∀ e ∈ es, e.WF) (off : Nat) :
 /-- `DictBuilder::compile` accepts every builder state within the limits whose references are valid, and
 writes exactly `fileBytes` -/
 theorem compile_ok (c : CompileInput) (hok : FileOk c)
-    (hval : validateEntries c.maxLeft c.maxRight c.numSystem c.entries = true) :
+    (hval : validateEntries c.dfOwn c.maxLeft c.maxRight c.numSystem c.entries = true) :
     compile c = .ok (fileBytes c) := by
   unfold compile
   simp only [hval, Bool.not_true, Bool.false_eq_true, if_false]
